@@ -22,7 +22,9 @@ from pbt.core import Collector, HarnessError, mksig
 ID = "C07"
 RULE = ("site templates x Hypothesis-generated names (quote characters of every dialect, dots, spaces, keywords, mixed case, leading digits, control and "
         "non-ASCII characters, arbitrary Unicode text) x six classes. Non-trivial = a name contains the active quote character, a dot, a space, a keyword "
-        "or an upper-case letter and the template has a definition/reference pair; distinct = distinct (template, names, class).")
+        "or an upper-case letter and the template has a definition/reference pair; distinct = distinct (template, names, class). Oracle: renaming homomorphism "
+        "on token streams, plus: every quoted identifier of the plain rendering is a supplied name and every supplied name is printed; plus fixed sets "
+        "of short / keyword / punctuation names.")
 ASSUMPTIONS = [
     "identifier quoting per dialect: \"..\" with \"\" doubling (all but MySQL), `..` with `` doubling (MySQL); Oracle cannot escape a double quote inside an identifier, so it is not generated for Oracle",
     "function names, COLLATE names, SQL types and LiteralValue/PseudoColumn texts are not user names in the property's sense",
